@@ -234,7 +234,7 @@ pub fn run(ctx: &Ctx) -> Report {
       let chrono = obs.windows(2).all(|p| p[0].ta <= p[1].ta && p[0].tb <= p[1].tb);
       let site = if form == "M2" { if chrono { "build|chrono" } else { "build|any" } } else { "r2d" };
       match r {
-        Err(p) => rep.violation_c(&format!("{} fails: {}", name, p), &shown, &p, "", "C09 (construction is total)", &panic_class(&p)),
+        Err(p) => rep.violation_c(&format!("{} fails: {}", name, p), &shown, &p, "", "C09 (construction is total)", &format!("{}|{}", panic_class(&p), if form == "M2" && chrono { "chrono" } else { "any" })),
         Ok(out) => match judge_obs(&mut orc, form, &out, &obs) {
           Err(e) => rep.violation("oracle-error", &shown, &e, "", "internal"),
           Ok(v) => {
